@@ -4,7 +4,7 @@
 From Coq Require Import String.
 From Coq Require Import List Arith Bool ZArith NArith Lia.
 Import ListNotations.
-From YP Require Import Base.Str Term.Term Term.Fast Unify.Unify Unify.Fast Unify.Mgu Lang.Ast Comp.IR Comp.CompileBody Comp.CompileClause
+From YP Require Import Base.Str Term.Term Term.Fast Unify.Unify Unify.Fast Unify.Mgu Unify.Base Lang.Ast Comp.IR Comp.CompileBody Comp.CompileClause
   Sem.Res Sem.RefSem Sem.SemLemmas Sem.IRSem Sem.ControlCorrect Sem.Machine Sem.ClauseSem.
 Local Open Scope string_scope.
 Local Open Scope list_scope.
@@ -100,6 +100,39 @@ Lemma solveA_cut_local n p name args s c cs ys :
 Proof. intros E H. cbn [solveA]. rewrite E, H. reflexivity. Qed.
 
 (* ---------------------------------------------------------------- the builtin predicates *)
+(* ---- unifying through a fresh variable (used for findall below) *)
+Lemma den_var_unbound s v : lookup v s = None -> den s (TVar v) = TVar v.
+Proof. intros L. apply den_id. intros w Hw. simpl in Hw. apply Nat.eqb_eq in Hw. subst w. exact L. Qed.
+
+Lemma mk_list_not_var es : forall s v, den s (mk_list es) <> TVar v.
+Proof.
+  intros s v. destruct es as [|x r]; cbn [mk_list].
+  - unfold nil_atom. rewrite den_atom. discriminate.
+  - unfold cons_term. rewrite den_fun. discriminate.
+Qed.
+
+(* unifying l with m directly, and going through a fresh variable v (v := m first, then l = v), compute the same
+   new bindings from the same resolved terms *)
+Lemma unify_through_fresh n s l m v :
+  wf s -> lookup v s = None -> occurs v (den s l) = false -> occurs v (den s m) = false ->
+  (forall w, den s m <> TVar w) ->
+  unify (S n) s (TVar v) m = UOk ((v, den s m) :: s) /\
+  forall k, unify k s l m = lift s (unify k [] (den s l) (den s m)) /\
+            unify k ((v, den s m) :: s) l (TVar v) = lift ((v, den s m) :: s) (unify k [] (den s l) (den s m)).
+Proof.
+  intros W L Ol Om NV. split.
+  - cbn [unify]. rewrite (den_var_unbound _ _ L).
+    destruct (den s m) as [a|z|q|w|f args] eqn:E; try (unfold bind; rewrite Om; reflexivity).
+    exfalso. exact (NV w eq_refl).
+  - intros k. split; [apply unify_increment; exact W|].
+    assert (W2: wf ((v, den s m) :: s)).
+    { constructor; [exact W|exact L|]. rewrite den_idem by exact W. exact Om. }
+    rewrite (unify_increment k l (TVar v) W2). f_equal. f_equal.
+    + cbn [den]. apply subst1_noocc. exact Ol.
+    + cbn [den]. rewrite (den_var_unbound _ _ L). cbn [subst1]. rewrite Nat.eqb_refl. apply den_idem. exact W.
+Qed.
+
+
 Section BuiltinSpec.
 Variable call : str -> list term -> st -> list st * bool.
 
@@ -177,6 +210,72 @@ Proof.
   intros H. inversion H; subst. destruct (call_goal call g [] s) as [xs [|]]; cbn [fst length]; [lia|].
   destruct (collect (nxt s) (nxt s) t xs) as [es b].
   unfold unify_st. destruct (unify_fast _ _ _ _); cbn [fst length]; lia.
+Qed.
+
+(* findall unifies the bag only AFTER the enumeration of G is complete: what is collected (the list of instances and
+   the variable counter, or the fact that G ended in an error) is determined by the call, the template, the goal and the
+   state of the call alone - it is chosen BEFORE the bag l is looked at - and the bag is then unified with that list in
+   the store of the call.  In particular G runs in the state of the call whatever the bag is (unbound, a closed or a
+   partial list, sharing variables with G or not): no binding flows from the bag into the enumeration of G. *)
+Definition findall_collected (t g : term) (s : st) : option (list term * nat) :=
+  let '(xs, e) := call_goal call g [] s in if e then None else Some (collect (nxt s) (nxt s) t xs).
+
+Lemma findall_bag_after_enumeration t g s :
+  exists r : option (list term * nat),
+    r = findall_collected t g s /\ forall l, builtin call (s_ "findall") [t; g; l] s =
+              Some (match r with
+                    | None => ([], true)
+                    | Some (es, b) => unify_st {| sto := sto s; nxt := b |} l (mk_list es)
+                    end).
+Proof.
+  exists (findall_collected t g s). split; [reflexivity|]. intros l.
+  change (builtin call (s_ "findall") [t; g; l] s) with
+  (Some (let '(xs, e) := call_goal call g [] s in
+         if e then ([], true) else
+         let '(es, b) := collect (nxt s) (nxt s) t xs in unify_st {| sto := sto s; nxt := b |} l (mk_list es))).
+  unfold findall_collected. destruct (call_goal call g [] s) as [xs [|]]; [reflexivity|].
+  destruct (collect (nxt s) (nxt s) t xs) as [es b]. reflexivity.
+Qed.
+
+(* consequence: two calls that differ only in the bag see the same collected list; whether each succeeds is the
+   unifiability of its own bag with that list *)
+Lemma findall_bags_same_list t g s l1 l2 :
+  exists r, (forall es b, r = Some (es, b) ->
+               builtin call (s_ "findall") [t; g; l1] s = Some (unify_st {| sto := sto s; nxt := b |} l1 (mk_list es)) /\ builtin call (s_ "findall") [t; g; l2] s = Some (unify_st {| sto := sto s; nxt := b |} l2 (mk_list es))) /\ (r = None -> builtin call (s_ "findall") [t; g; l1] s = Some ([], true) /\ builtin call (s_ "findall") [t; g; l2] s = Some ([], true)).
+Proof.
+  destruct (findall_bag_after_enumeration t g s) as [r [_ H]]. exists r. split.
+  - intros es b E. rewrite !H, E. split; reflexivity.
+  - intros E. rewrite !H, E. split; reflexivity.
+Qed.
+
+(* findall(T,G,L) is findall(T,G,V), L = V for a new variable V - the standard reading "collect, then match": with V
+   unbound, not occurring in L nor in the collected list, the first step succeeds exactly once binding only V (to the
+   resolved list), and matching L against V afterwards ends exactly as the direct call does (success / failure /
+   error) with the SAME new bindings nw, computed from the resolved bag and the resolved list alone; the two final
+   stores differ only by the binding of the auxiliary variable V. *)
+Lemma findall_as_fresh_bag_then_unify t g l s v es b :
+  wf (sto s) -> lookup v (sto s) = None ->
+  occurs v (den (sto s) l) = false ->
+  findall_collected t g s = Some (es, b) ->
+  occurs v (den (sto s) (mk_list es)) = false ->
+  let m := den (sto s) (mk_list es) in
+  let s1 := {| sto := (v, m) :: sto s; nxt := b |} in
+  builtin call (s_ "findall") [t; g; TVar v] s = Some ([s1], false) /\
+  match unify ufuel [] (den (sto s) l) m with
+  | UOk nw => builtin call (s_ "findall") [t; g; l] s = Some ([{| sto := nw ++ sto s; nxt := b |}], false) /\
+              unify_st s1 l (TVar v) = ([{| sto := nw ++ (v, m) :: sto s; nxt := b |}], false)
+  | UFail => builtin call (s_ "findall") [t; g; l] s = Some ([], false) /\ unify_st s1 l (TVar v) = ([], false)
+  | _ => builtin call (s_ "findall") [t; g; l] s = Some ([], true) /\ unify_st s1 l (TVar v) = ([], true)
+  end.
+Proof.
+  intros W L Ol C Om m s1.
+  destruct (findall_bag_after_enumeration t g s) as [r [Er H]]. rewrite C in Er. subst r.
+  destruct (unify_through_fresh (Nat.pred ufuel) (sto s) l (mk_list es) v W L Ol Om (mk_list_not_var es (sto s))) as [U1 U2].
+  split.
+  - rewrite H. unfold unify_st. rewrite unify_fast_eq. cbn [sto nxt]. change ufuel with (S (Nat.pred ufuel)) at 1. rewrite U1. reflexivity.
+  - destruct (U2 ufuel) as [Ud Uv]. rewrite H. unfold unify_st. rewrite !unify_fast_eq. cbn [sto nxt].
+    subst s1. cbn [sto nxt]. fold m in Uv. rewrite Ud, Uv. fold m.
+    destruct (unify ufuel [] (den (sto s) l) m) as [nw| | |]; cbn [lift]; split; reflexivity.
 Qed.
 End BuiltinSpec.
 
